@@ -1,9 +1,6 @@
 //! Support for encapsulated uncompressed via pixel data adapter.
 
-use dicom_core::{
-    PrimitiveValue, Tag,
-    ops::{AttributeAction, AttributeOp},
-};
+use dicom_core::ops::AttributeOp;
 use dicom_encoding::{
     adapters::{
         DecodeResult, EncodeOptions, EncodeResult, PixelDataObject, PixelDataReader,
@@ -83,8 +80,6 @@ impl PixelDataWriter for UncompressedAdapter {
             .context(encode_error::MissingAttributeSnafu { name: "Pixel Data" })?
             .fragments[0];
 
-        let len_before = pixeldata_uncompressed.len();
-
         let frame_data = pixeldata_uncompressed
             .get(frame_size * frame as usize..frame_size * (frame as usize + 1))
             .whatever_context("Frame index out of bounds")?;
@@ -92,13 +87,12 @@ impl PixelDataWriter for UncompressedAdapter {
         // Copy the data to the output
         dst.extend_from_slice(frame_data);
 
-        // provide attribute changes
-        Ok(vec![
-            // Encapsulated Pixel Data Value Total Length
-            AttributeOp::new(
-                Tag(0x7FE0, 0x0003),
-                AttributeAction::Set(PrimitiveValue::from(len_before as u64)),
-            ),
-        ])
+        // no attribute changes required:
+        // Encapsulated Pixel Data Value Total Length
+        // is the total length of the fragments of all frames,
+        // which the caller determines once every frame is encoded
+        // (the length of the native pixel data element
+        // may include padding and is not that total)
+        Ok(vec![])
     }
 }
